@@ -739,6 +739,26 @@ def moveaxis(a, src, dst):
     return a.transpose(order)
 
 
+def atleast_1d(*arys):
+    res = []
+    for a in arys:
+        a = _live(a)
+        res.append(a if a.ndim >= 1 else reshape(a, (1,)))
+    return res[0] if len(res) == 1 else res
+
+
+def atleast_2d(*arys):
+    res = []
+    for a in arys:
+        a = _live(a)
+        if a.ndim == 0:
+            a = reshape(a, (1, 1))
+        elif a.ndim == 1:
+            a = a[None, :]
+        res.append(a)
+    return res[0] if len(res) == 1 else res
+
+
 def expand_dims(a, axis):
     a = _live(a)
     key = [slice(None)] * a.ndim
